@@ -1,5 +1,6 @@
 import IwModel.Model.Avl
 /-! Invariants of the AVL model: in-order contents, balance factors, heights. -/
+set_option linter.unusedSimpArgs false
 namespace IwModel.Avl
 open Tree
 
